@@ -571,7 +571,14 @@ func toTFact(f Fact) TFact {
 // helper calls to module functions expanded through their return summaries up
 // to the given depth (parameters substituted by the call's arguments).
 func TFactsAt(b *ssa.BasicBlock, depth int) []TFact {
-	return ExpandFacts(FactsAt(b), depth)
+	out := ExpandFacts(FactsAt(b), depth)
+	// a private helper inherits what all its call sites established (see CallerFacts)
+	if fn := b.Parent(); fn != nil && fn.Parent() == nil && PrivateHelper(fn) {
+		if cf := CallerFacts(fn); len(cf) > 0 {
+			out = append(append([]TFact{}, out...), cf...)
+		}
+	}
+	return out
 }
 
 func ExpandFacts(fs []Fact, depth int) []TFact {
